@@ -377,6 +377,66 @@ Fixpoint model_under_dict (t : vt) : bool :=
   | _ => false
   end.
 
+(* ---- the senders, and the OpenTelemetry path.  _execute_with_telemetry is a second copy of the
+   dispatch of _execute (it processes the variables itself and chooses the sender itself) wrapped in
+   spans; modelled separately, function by function, and PROVED to send the same request ---- *)
+(* _execute_multipart / _execute_json: each serialises the body itself *)
+Definition send_multipart (url : string) (c : call) (vars : list (string * vt))
+                          (files : list nat) (fmap : list (nat * list path)) : request :=
+  match to_json (VDict vars) with
+  | None => RError
+  | Some vj => RMultipart url (c_headers c) (c_timeout c) (body_json (c_query c) (c_opname c) vj)
+                          (fmap_json fmap) (files_parts files)
+  end.
+Definition send_json (url : string) (c : call) (vars : list (string * vt)) : request :=
+  match to_json (VDict vars) with
+  | None => RError
+  | Some vj => RJson url (merge_headers (match c_headers c with Some h => h | None => [] end))
+                     (c_timeout c) (body_json (c_query c) (c_opname c) vj)
+  end.
+
+Record span := mk_span { sp_name : string; sp_attrs : list (string * json) }.
+Definition component_attr : string * json := ("component", JStr "GraphQL Client").
+(* span.set_attribute("operationName", operation_name or "") *)
+Definition opname_attr (o : option string) : json :=
+  JStr (match o with Some s => s | None => "" end).
+
+(* the child span: component first; the variables (and map) are serialised BEFORE the other
+   attributes are set, so a serialisation error leaves a span with the component only *)
+Definition execute_with_telemetry (root_name url : string) (c : call) : list span * request :=
+  let '(vars, (files, fmap)) := process_variables (c_vars c) in
+  let root := mk_span root_name [component_attr] in
+  if negb (is_nil files) && negb (is_nil fmap) then
+    match to_json (VDict vars) with
+    | None => ([root; mk_span "multipart request" [component_attr]], RError)
+    | Some vj =>
+        ([root; mk_span "multipart request"
+                  [component_attr; ("query", JStr (c_query c)); ("operationName", opname_attr (c_opname c));
+                   ("variables", vj); ("map", fmap_json fmap)]],
+         send_multipart url c vars files fmap)
+    end
+  else
+    match to_json (VDict vars) with
+    | None => ([root; mk_span "json request" [component_attr]], RError)
+    | Some vj =>
+        ([root; mk_span "json request"
+                  [component_attr; ("query", JStr (c_query c)); ("operationName", opname_attr (c_opname c));
+                   ("variables", vj)]],
+         send_json url c vars)
+    end.
+
+(* an UNSET that json.dumps will meet: below the top level, through lists, dicts and SET model fields *)
+Fixpoint reach_unset (t : vt) : bool :=
+  match t with
+  | VUnset => true
+  | VList l => existsb reach_unset l
+  | VDict kv => existsb (fun q => reach_unset (snd q)) kv
+  | VModel fs => existsb (fun q => mf_set (fst q) && reach_unset (snd q)) fs
+  | _ => false
+  end.
+Definition vars_reach_unset (vars : list (string * vt)) : bool :=
+  existsb (fun q => negb (is_unset (snd q)) && reach_unset (snd q)) vars.
+
 (* ---- the stream behind an Upload: content, current position, seekability.
    All four clients hand the stream object itself to httpx (files={i: (filename, content, type)});
    httpx's multipart FileField.render_data rewinds a seekable stream (seek(0)) and reads to EOF, a
@@ -458,6 +518,9 @@ Definition dHeaders (e : sexp) : option (option headers) := dOpt (dList dPair) e
 
 Definition sHeaders (h : headers) : sexp := L (map (fun p => L [A (fst p); A (snd p)]) h).
 
+Definition span_to_sexp (sp : span) : sexp :=
+  L [A (sp_name sp); L (map (fun p => L [A (fst p); json_to_sexp (snd p)]) (sp_attrs sp))].
+
 Definition request_to_sexp (r : request) : sexp :=
   match r with
   | RJson url h t b => L [A "json"; A url; sHeaders h; sOpt sZ t; json_to_sexp b]
@@ -531,7 +594,10 @@ Definition run_client (e : sexp) : sexp :=
              sB (match h' with Some hh => has_ct hh | None => false end);
              sB (roundtrip_holds v');
              L (map (fun n => A n) (wire_values "content-type"
-                  (match snd (execute (mk_cstate url None) c) with RJson _ hh _ _ => hh | _ => [] end)))]
+                  (match snd (execute (mk_cstate url None) c) with RJson _ hh _ _ => hh | _ => [] end)));
+             L [request_to_sexp (snd (execute_with_telemetry "GraphQL Operation" url c));
+                L (map span_to_sexp (fst (execute_with_telemetry "GraphQL Operation" url c)))];
+             sB (match v' with Some kv => vars_reach_unset kv | None => false end)]
       | _, _, _, _ => sErr "execute: bad arguments"
       end
   | L [A "sent_bytes"; A content; pos; seekable] =>
